@@ -523,6 +523,9 @@ FRONT_SOUP = [
     "a: {2020-01-01: x}", "a: {1.5: x, ~: y, true: z}", "a: &a [*a]", "a: &a {b: *a}", "a: [&b {c: *b}]", "a: {!!binary aGk=: v}", "a: {? [1, 2] : v}", "2020-01-01: top", "1: one\n2.5: f\n~: n\ntrue: b", "? !!binary aGk=\n: v",
     "title: &t [*t]", "author: {2020-01-01: x}", "a: !!float 'x'", "a: !!int 'x'", "a: !!bool 'x'", "a: !!null 'x'", "a: !!python/tuple [1]", "a: !!seq {x: 1}", "a: !!map [x]", "a: !!str {x: 1}", "a: 1e999", "a: -.inf", "a: 0x",
     "a: 2020-13-45", "a: 99:99:99", "a: 1_000", "a: 0b2", "a: '\\x'", "a: \"\\xZZ\"", "a: \"\\u12\"", "%YAML 9.9\n---\na: 1", "%TAG ! tag:x,2000:\n---\na: !foo 1", "a: |+\n\n\n", "a: >-\n  \n", "? |\n  block key\n: v", "a:\n- b\n-\n- c",
+    # keys and values at the boundary: empty, blank, very long, only punctuation, reserved docinfo names with odd values
+    "'': v", "\"\": v\nb: c", "? ''\n: v", "' ': v", "'': ''", "~: ~", "a: ''", "a: ' '", "'\\n': v", "'a\\nb': v", "'*': v", "': ': v", "'#': v", "k" * 300 + ": v", "k: " + "v" * 3000, "authors: []", "author: ''", "date: ''", "title: ''", "abstract: ''",
+    "dedication: ~", "version: 1.0", "revision: [1]", "status: {}", "copyright: \"\"", "address: |\n  a\n  b", "contact: <x@y.z>", "organization: '*o*'", "tocdepth: x", "orphan: x", "nocomments: 1",
     "myst:\n  substitutions:\n    2020-01-01: d\n    1: one", "myst:\n  substitutions: &s\n    k: *s", "myst:\n  html_meta:\n    1: x", "myst:\n  url_schemes:\n    1: x", "myst:\n  url_schemes: &u\n    x: *u", "myst: &m\n  substitutions: *m",
 ]
 
